@@ -78,7 +78,7 @@ def _intify_keys(d):
     assert isinstance(d, dict)
     out = {}
     for k, v in d.items():
-        if isinstance(k, str) and k.isdigit():
+        if isinstance(k, str) and (k.isdigit() or (k[:1] == '-' and k[1:].isdigit())):
             k = int(k)
         out[k] = v
     return out
